@@ -119,7 +119,7 @@ Proof. exact erase_at_end. Qed.
 Print Assumptions C19_clear_loop_exact.
 
 (** the class NoTextCut excludes is a genuine defect (reproduced on the real code by the harness,
-    class 'text-drawn-while-no-bar-line-fits'): W = 3, H = 1, template "AAAA" (2 rows > H):
+    class open finding D14, oracle class 'height-cut-leaves-cursor-mid-row'): W = 3, H = 1, template "AAAA" (2 rows > H):
     tick; println "x"; println "y" leaves the single row "xy" - the second line has no row. *)
 Definition cut_s0 : sys :=
   mksys [new_bar None FAndLeave [PLit (t "AAAA")] (TTerm (new_ttarget None 0)) 0] (new_ms THidden) 0.
@@ -137,6 +137,35 @@ Proof.
   split; [vm_compute; discriminate|]. vm_compute. repeat split.
 Qed.
 Print Assumptions C19_text_cut_refuted.
+
+(** D17 (open finding, class 'finished-bar-reaped-behind-the-cut') on the MultiProgress model
+    (Sys.ms_draw): 3x2 terminal, members Z, "P\np", Q, R (all finish-and-leave).  After every bar was
+    drawn, P and Q are dropped (zombies behind the live Z), Z is removed: the redraw paints P (2 rows
+    = the whole height), Q is behind the cut and NOT painted - yet the reap loop takes BOTH head
+    zombies off the list (Q's slot 2 is freed).  Q's final frame is never written by any call of
+    the whole history although afterwards only R (1 row) is left and Q would fit. *)
+Definition d17_case : syscase :=
+  mkcase 3 2 [] None (ITerm None)
+    [(None, FAndLeave, [PLit (t "Z")], IHidden);
+     (None, FAndLeave, [PLit (t "P"); PNewLine; PLit (t "p")], IHidden);
+     (None, FAndLeave, [PLit (t "Q")], IHidden);
+     (None, FAndLeave, [PLit (t "R")], IHidden)]
+    [(1000000000, OInsert BEnd 0); (2000000000, OInsert BEnd 1); (3000000000, OInsert BEnd 2);
+     (4000000000, OInsert BEnd 3); (5000000000, OTick 0); (6000000000, OTick 1); (7000000000, OTick 2);
+     (8000000000, OTick 3); (9000000000, ODrop 1); (10000000000, ODrop 2); (11000000000, ORemove 0);
+     (12000000000, OTick 3); (13000000000, OTick 3)] [].
+
+Theorem C19_D17_reaped_behind_cut_witness :
+  let r := run_sys 3 2 (case_init d17_case) (c_ops d17_case) in
+  let calls := List.concat (snd r) in
+  ms_order (s_mp (fst r)) = [3]                      (* only R is still a member ... *)
+  /\ ms_free (s_mp (fst r)) = [2; 1; 0]               (* ... Q's slot (2) has been reaped *)
+  /\ existsb (writes_char 81) calls = false           (* no call ever wrote a 'Q' *)
+  /\ existsb (writes_char 80) calls = true            (* (P was painted) *)
+  /\ all_rows (run_ops 3 2 term_init calls) = [t "P"; t "pR "; t "R  "]
+  /\ visual_line_count [mkline KBar (t "Q"); mkline KBar (t "R")] 3 <= 2.   (* Q and R would fit *)
+Proof. vm_compute. repeat split; discriminate. Qed.
+Print Assumptions C19_D17_reaped_behind_cut_witness.
 
 (** hypotheses are satisfiable by a non-trivial history: a 2x3 terminal, a three-line template
     whose frame (1 + 2 + 1 = 4 rows) is taller than the terminal: only the leading lines are
